@@ -22,6 +22,13 @@ def build_args(name):
     return A
 
 
+def _enc(bits, G, start):
+    try:
+        return O.ref_encode(bits, G, start)
+    except O.RefError:
+        return U.rule_walk(G, start, max(3, len(bits) // 2), 1, 0) or 'A'
+
+
 def _build_base(name):
     import dsw
     if name in ('literal2', 'other2'):
@@ -36,7 +43,7 @@ def _build_base(name):
             G = O.from_mask(O.gfp(mask, 2, 2), 2)
             start = sorted(O.has_arcs(G))[2]
             bits = [1, 1, 0, 1, 0, 0, 1, 1]
-            strand = O.ref_encode(bits, G, start)
+            strand = _enc(bits, G, start)
             w = U.walks_dev(G, start, 12, 1)[3]
             corrupted = w[:5] + w[4] + w[6:]
         filt = dsw.LocalBioFilter(observed_length=2, max_homopolymer_runs=1, gc_range=[0.5, 0.5] if name == 'literal2' else None)
@@ -44,10 +51,14 @@ def _build_base(name):
         k = 3
         c = O.compile_cfg((3, 2, None, ['GC'])) if name == 'generated3' else O.compile_cfg((3, None, ('0.3', '0.7'), None))
         mask = {v for v in range(64) if O.seq_ok_c(c, O.kmer(v, 3))}
-        G = O.from_mask(O.gfp(mask, 3, 2), 3)
+        # 'other3' is the untrimmed valid graph of its filter: it has arcs into vertices without out-going arcs
+        G = O.from_mask(O.gfp(mask, 3, 2), 3) if name == 'generated3' else O.from_mask(mask | {O.idx('GGG'), O.idx('CCC')}, 3)
+        if name == 'other3':
+            for v in (O.idx('GGG'), O.idx('CCC')):
+                G[v] = [-1, -1, -1, -1]
         start = sorted(O.has_arcs(G))[0 if name == 'generated3' else 5]
         bits = [1, 0, 1, 1, 0, 0, 1, 0, 1, 1]
-        strand = O.ref_encode(bits, G, start)
+        strand = _enc(bits, G, start)
         w = U.walks_dev(G, start, 14, 0)[0]
         corrupted = w[:6] + ('A' if w[6] != 'A' else 'C') + w[7:]
         filt = dsw.LocalBioFilter(observed_length=3, max_homopolymer_runs=2, undesired_motifs=['GC']) if name == 'generated3' \
@@ -59,7 +70,7 @@ def _build_base(name):
         G = O.from_mask(O.gfp(mask, 4, 2), 4)
         start = sorted(O.has_arcs(G))[3]
         bits = [1, 0, 0, 1, 1, 0, 1, 0, 1, 1, 1, 0]
-        strand = O.ref_encode(bits, G, start)
+        strand = _enc(bits, G, start)
         w = U.walks_dev(G, start, 18, 0)[0]
         live_ = O.outs(G, O.walk_end(G, start, w[:8]))
         bad = [c_ for c_ in 'ACGT' if O.NUC.index(c_) not in live_]
@@ -71,7 +82,7 @@ def _build_base(name):
             [[-1, 1, 2, -1], [0, 1, -1, 3], [0, 1, 2, 3], [-1, -1, 2, -1]]
         start = 0
         bits = [1, 1, 0, 1, 0, 0, 1]
-        strand = O.ref_encode(bits, G, start)
+        strand = _enc(bits, G, start)
         corrupted = 'ACGG' + 'ACAC'
         filt = dsw.LocalBioFilter(observed_length=1, gc_range=[0.0, 1.0])
     n = 4 ** k
@@ -86,7 +97,7 @@ def _build_base(name):
         'matrix': np.array([[1 if w in [x for x in G[u] if x >= 0] else 0 for w in range(n)] for u in range(n)], dtype=int),
         'check': O.vt(strand, 4), 'number': '9041999', 'dna': 'ACGTTGCA',
         'bits_long': np.array([(i * 7 + i // 3) % 2 for i in range(160)], dtype=int),
-        'strand_long': O.ref_encode([(i * 7 + i // 3) % 2 for i in range(160)], G, start),
+        'strand_long': _enc([(i * 7 + i // 3) % 2 for i in range(160)], G, start),
         'short_strings': [''.join(p) for n_ in (1, 2) for p in __import__('itertools').product('ACGT', repeat=n_)],
     }
     return A
@@ -179,6 +190,24 @@ def ops():
     add('shuffles_other_seed', lambda d, A, **v: d.create_random_shuffles(A['k'], random_seed=8, **v), True)
     add('remove_arc_inplace', lambda d, A, **v: d.remove_nasty_arc(A['acc'], A['lm'], **v), True)
     add('remove_arc_on_copies', lambda d, A, **v: d.remove_nasty_arc(A['acc'].copy(), copy.deepcopy(A['lm']), **v), True)
+    def trim_then_remove(d, A):
+        t = d.remove_useless(A['lm'], 1)
+        return d.remove_nasty_arc(A['acc'].copy(), t)[2:]
+    add('useless_then_remove_arc', trim_then_remove)
+
+    def map_then_remove(d, A):
+        m = d.accessor_to_latter_map(A['acc'])
+        a = d.latter_map_to_accessor(A['lm'], A['k'])
+        return d.remove_nasty_arc(a, m)[2:]
+    add('convert_then_remove_arc', map_then_remove)
+
+    def gen_then_overwrite(d, A):
+        v, a = d.connect_coding_graph(A['k'], A['mask'].copy(), 1)
+        a[...] = -1
+        c = d.get_complete_accessor(A['k'])
+        c[0, :] = -1
+        return d.obtain_vertices(d.get_complete_accessor(A['k'])).tolist()
+    add('generate_then_overwrite_results', gen_then_overwrite)
     add('calc_add', lambda d, A: d.calculus_addition(A['number'], '7'))
     add('calc_sub', lambda d, A: d.calculus_subtraction(A['number'], '7'))
     add('calc_mul', lambda d, A: d.calculus_multiplication(A['number'], '7'))
